@@ -1303,6 +1303,47 @@ fn oversize_cases(rng: &mut Rng, out: &mut Vec<Req>) {
         }
         out.push(verify_req(v, "oversize", &keys, &ev, "verify.oversize"));
     }
+    // The size limit is on the HASHED part only. (1) A signed event grown by a large `unsigned` (a
+    // receiver's `prev_content`), (2) an event whose hashed part is just under the limit so that the
+    // added `hashes` + `signatures` push the whole object over it: both still verify as `All`.
+    let mut small = to_obj(json!({
+        "type": "m.room.message", "sender": "@a:a.example", "event_id": "$e:a.example", "room_id": "!r:a.example",
+        "content": {"body": "small", "msgtype": "m.text"}
+    }));
+    if hash_and_sign_event(&s.entity, &key_pair(&s.seed, &s.version), &mut small, &r.redaction).is_ok() {
+        small.insert("unsigned".into(), to_val(json!({"prev_content": {"body": "p".repeat(66_000)}, "age": 1})));
+        out.push(verify_req(v, "unsigned-mut", &keys, &small, "verify.unsigned-big"));
+    }
+    for slack in [0usize, 40, 150] {
+        let mut near = to_obj(json!({
+            "type": "m.room.message", "sender": "@a:a.example", "event_id": "$e:a.example", "room_id": "!r:a.example",
+            "content": {"body": "", "msgtype": "m.text"}
+        }));
+        let base = hashed_bytes(&near).len();
+        if let Some(Val::Object(c)) = near.get_mut("content") {
+            c.insert("body".into(), Val::String("z".repeat(65_535 - base - slack)));
+        }
+        if hash_and_sign_event(&s.entity, &key_pair(&s.seed, &s.version), &mut near, &r.redaction).is_ok() {
+            out.push(verify_req(v, "signed", &keys, &near, "verify.near-limit"));
+        }
+    }
+    // A signature under an algorithm the library does not support is ignored, whether or not the key map
+    // has an entry for its key id: next to a valid ed25519 signature of the required server the event
+    // still verifies as `All`.
+    let mut extra = to_obj(json!({
+        "type": "m.room.message", "sender": "@a:a.example", "event_id": "$e:a.example", "room_id": "!r:a.example",
+        "content": {"body": "small", "msgtype": "m.text"}
+    }));
+    if hash_and_sign_event(&s.entity, &key_pair(&s.seed, &s.version), &mut extra, &r.redaction).is_ok() {
+        if let Some(Val::Object(sigs)) = extra.get_mut("signatures") {
+            if let Some(Val::Object(set)) = sigs.get_mut("a.example") {
+                set.insert("ed448:f1".into(), Val::String("c2ln".into()));
+                set.insert("rsa-sha256:1".into(), Val::String("AAAA".into()));
+                set.insert("nocolon".into(), Val::String("AAAA".into()));
+            }
+        }
+        out.push(verify_req(v, "signed", &keys, &extra, "verify.unsupported-algorithm-extra"));
+    }
 }
 
 fn gen(rng: &mut Rng, n: usize, tier: &str) -> Vec<Req> {
